@@ -39,23 +39,51 @@ def _run(item):
         return idx, 'crash', traceback.format_exc(), time.time() - t
 
 
-def run_tasks(tasks):
-    """tasks: list of (mode, 'module:function', params).  Returns merged Acc.  Raises MachineryError on a crash."""
+DEADLINE = float(os.environ.get('VERIF_DEADLINE', '0') or 0)
+
+
+def run_tasks(tasks, deadline=None):
+    """tasks: list of (mode, 'module:function', params).  Returns merged Acc.  Raises MachineryError on a crash.
+    deadline (seconds of wall clock for all tasks together): when it passes, unfinished tasks are abandoned; what
+    finished is merged and merged.incomplete lists the abandoned tasks (a change that makes the library hundreds of
+    times slower must not turn a check into an endless run)."""
+    deadline = DEADLINE or deadline or 0
+    t_start = time.time()
     merged = core.Acc()
+    merged.incomplete = []
     timings = []
     for mode in ('plain', 'instr'):
         items = [(i, name, params) for i, (m, name, params) in enumerate(tasks) if m == mode]
         if not items:
             continue
         ctx = multiprocessing.get_context('fork')
-        with ctx.Pool(min(NPROC, len(items)), initializer=_init, initargs=(mode,)) as pool:
-            results = list(pool.imap_unordered(_run, items, chunksize=1))
+        pool = ctx.Pool(min(NPROC, len(items)), initializer=_init, initargs=(mode,))
+        try:
+            it = pool.imap_unordered(_run, items, chunksize=1)
+            results = []
+            pending = {i for i, _, _ in items}
+            while pending:
+                try:
+                    left = None if not deadline else max(1.0, deadline - (time.time() - t_start))
+                    r = it.next(timeout=left)
+                except multiprocessing.TimeoutError:
+                    merged.incomplete.extend('{} {}'.format(tasks[i][1], str(tasks[i][2])[:100]) for i in sorted(pending))
+                    break
+                except StopIteration:
+                    break
+                results.append(r)
+                pending.discard(r[0])
+        finally:
+            pool.terminate()
+            pool.join()
         results.sort(key=lambda r: r[0])
         for idx, status, acc, dt in results:
             timings.append((dt, tasks[idx][1], tasks[idx][2]))
             if status == 'crash':
                 raise core.MachineryError('task {} {} crashed:\n{}'.format(tasks[idx][1], tasks[idx][2], acc))
             merged.merge(acc)
+        if merged.incomplete:
+            break
     merged.timings = sorted(timings, key=lambda t: -t[0])[:5]
     return merged
 
